@@ -186,12 +186,18 @@ def run_gym_stateful(ctx):
         chk(f"step[{term},{trunc}].stores_next_state_keeps_key", w._state == Tok("state_of_step", st0) and w._key == key0)
         chk(f"step[{term},{trunc}].relays_reward_terminated_truncated_info", r == float(Tok("reward", st0)) and te is term and tr is trunc and inf == {"info": Tok("extras_of_step", st0)})
         chk(f"step[{term},{trunc}].returns_converted_observation", isinstance(o, np.ndarray) and float(o) == float(len(log)))
-    # reset(seed=s) == seed(s); reset()
-    w1, log1, _ = make()
-    w2, log2, _ = make()
-    _patched(lambda: w1.reset(seed=Tok("s9")))
-    _patched(lambda: (w2.seed(Tok("s9")), w2.reset()))
-    chk("reset_with_seed_equals_seed_then_reset", log1 == log2 and w1._key == w2._key and w1._state == w2._state, {"log1": repr(log1), "log2": repr(log2)})
+    # reset(seed=s) == seed(s); reset()   -- for EVERY seed value: the seed token answers bool() both ways (a seed may be 0);
+    # correct code never asks (it tests `seed is not None`)
+    for truth in (True, False):
+        w1, log1, _ = make()
+        w2, log2, _ = make()
+        _patched(lambda: w1.reset())           # the key has already moved on
+        _patched(lambda: w2.reset())
+        sd = Tok("s9", truth=truth)
+        _patched(lambda: w1.reset(seed=sd))
+        _patched(lambda: (w2.seed(sd), w2.reset()))
+        chk(f"reset_with_seed_equals_seed_then_reset[bool(seed)={truth}]", log1 == log2 and w1._key == w2._key and w1._state == w2._state,
+            {"log_reset_with_seed": repr(log1), "log_seed_then_reset": repr(log2), "note": "a falsy seed (0) must re-seed like any other"})
     # re-seeding reproduces the same episode: every enumerated call sequence after seed(s) produces the same env calls and results twice
     import itertools
     ok_all, n = True, 0
